@@ -43,6 +43,7 @@ type Holdings struct {
 	BaseSide *big.Int // bancor reserves + accumulated rewards + total slashed
 	Negative []string
 	ValAccum map[types.Pubkey]*big.Int // accumulated reward per validator
+	ValStake map[types.Pubkey]*big.Int // total bip stake per validator
 	CandOn   map[types.Pubkey]bool     // candidates that are online
 }
 
@@ -122,10 +123,11 @@ func holdings(st *types.AppState) *Holdings {
 			h.Negative = append(h.Negative, fmt.Sprintf("volume coin %d = %s exceeds max supply %s", c.ID, c.Volume, c.MaxSupply))
 		}
 	}
-	h.ValAccum, h.CandOn = map[types.Pubkey]*big.Int{}, map[types.Pubkey]bool{}
+	h.ValAccum, h.CandOn, h.ValStake = map[types.Pubkey]*big.Int{}, map[types.Pubkey]bool{}, map[types.Pubkey]*big.Int{}
 	for _, v := range st.Validators {
 		h.BaseSide.Add(h.BaseSide, bi(v.AccumReward))
 		h.ValAccum[v.PubKey] = bi(v.AccumReward)
+		h.ValStake[v.PubKey] = bi(v.TotalBipStake)
 	}
 	for _, c := range st.Candidates {
 		h.CandOn[c.PubKey] = c.Status == 2
@@ -834,10 +836,31 @@ func baseDiffKey(prev, cur *Holdings, dBase, dEm *big.Int) string {
 			}
 		}
 	}
-	// upper bound: the deselected validators' own rewards plus their share of this block's pool, which also holds the
-	// rewards returned by the validators dropped in this block
+	// upper bound: the deselected validators' own rewards plus their share of this block's pool (reward, fees, rewards
+	// returned by the validators dropped in this block).  The pool is not observable, but every validator that stays and
+	// gained g with stake s tells it: a validator with stake s' got g*s'/s (floors aside).
 	upper := new(big.Int).Add(leavers, new(big.Int).Mul(dEm, big.NewInt(2)))
 	upper.Add(upper, pip(1000))
+	lostStake := big.NewInt(0)
+	for k := range prev.ValAccum {
+		if _, stays := cur.ValAccum[k]; !stays && cur.CandOn[k] && prev.ValStake[k] != nil {
+			lostStake.Add(lostStake, prev.ValStake[k])
+		}
+	}
+	for k, a := range cur.ValAccum {
+		pa, was := prev.ValAccum[k]
+		st := prev.ValStake[k]
+		if !was || st == nil || st.Sign() <= 0 {
+			continue
+		}
+		if g := new(big.Int).Sub(a, pa); g.Sign() > 0 {
+			share := new(big.Int).Div(new(big.Int).Mul(g, lostStake), st)
+			share.Add(share, new(big.Int).Add(leavers, pip(1)))
+			if share.Cmp(upper) > 0 {
+				upper = share
+			}
+		}
+	}
 	if n > 0 && loss.Cmp(lost) >= 0 && loss.Cmp(upper) <= 0 {
 		return "c01-deselected-validator-reward-lost"
 	}
